@@ -2,6 +2,7 @@ package nc
 
 import (
 	"go/token"
+	"go/types"
 	"strings"
 
 	"golang.org/x/tools/go/ssa"
@@ -38,4 +39,332 @@ func c12BiasTest(tm *Termer, c ssa.Value, taken bool, biasConst string) (core ss
 		holds = !holds
 	}
 	return b, x, holds, true
+}
+
+// ---------------------------------------------------------------------------------------------------------------
+// Start indices of the neuron groups (C12.5 layout.order).
+//
+// The obligation claims: group k starts at the index where group k-1 ended, the first group starts at 0.  The pinned
+// code threads the result of processList into the next call; equivalent code computes the start offsets from the
+// group sizes (`inputsOffset := len(biasList)`, `outputsOffset := inputsOffset + len(inList)` ...), or from a counter
+// kept next to the appends.  All forms are compared as linear forms over the atoms len(<list value>).
+
+// c12Lin is k + Σ coef[a]·a, the atoms a standing for the length of one list value.
+type c12Lin struct {
+	k    int64
+	coef map[string]int64
+}
+
+func (a c12Lin) plus(b c12Lin) c12Lin {
+	s := c12Lin{k: a.k + b.k, coef: map[string]int64{}}
+	for n, c := range a.coef {
+		s.coef[n] += c
+	}
+	for n, c := range b.coef {
+		s.coef[n] += c
+	}
+	for n, c := range s.coef {
+		if c == 0 {
+			delete(s.coef, n)
+		}
+	}
+	return s
+}
+
+func (a c12Lin) equal(b c12Lin) bool {
+	if a.k != b.k || len(a.coef) != len(b.coef) {
+		return false
+	}
+	for n, c := range a.coef {
+		if b.coef[n] != c {
+			return false
+		}
+	}
+	return true
+}
+
+// c12LinCtx evaluates integer values of fn as linear forms.
+type c12LinCtx struct {
+	tm    *Termer
+	fn    *ssa.Function
+	pl    *ssa.Function // processList; its result is start+len(list) if plExact
+	exact bool          // processList numbers exactly len(list) neurons start, start+1, ... and returns the next index
+	lists []ssa.Value   // the list values handed to processList (candidates for a counter kept next to the appends)
+	// fields of the receiver that fn never stores to: two loads of them yield the same slice
+	stableField func(t *Term) bool
+}
+
+// atom names the length of list value v: SSA identity for local lists, the origin term for a receiver field that
+// the function does not assign (every load yields the same slice header, hence the same length).
+func (cx *c12LinCtx) atom(v ssa.Value) (string, bool) {
+	for {
+		ct, ok := v.(*ssa.ChangeType)
+		if !ok {
+			break
+		}
+		v = ct.X
+	}
+	if t := cx.tm.Of(v); t.Op == "field" && cx.stableField(t) {
+		return "len(" + t.String() + ")", true
+	}
+	switch v.(type) {
+	case *ssa.Phi, *ssa.Call, *ssa.Slice, *ssa.MakeSlice, *ssa.Parameter:
+		return "len(" + v.Name() + ")", true
+	}
+	return "", false
+}
+
+func (cx *c12LinCtx) of(v ssa.Value, depth int) (c12Lin, bool) {
+	if depth > 16 {
+		return c12Lin{}, false
+	}
+	if k, ok := constInt(v); ok {
+		if _, isC := v.(*ssa.Const); isC {
+			return c12Lin{k: k}, true
+		}
+	}
+	switch x := v.(type) {
+	case *ssa.BinOp:
+		if x.Op != token.ADD {
+			return c12Lin{}, false
+		}
+		a, okA := cx.of(x.X, depth+1)
+		b, okB := cx.of(x.Y, depth+1)
+		if !okA || !okB {
+			return c12Lin{}, false
+		}
+		return a.plus(b), true
+	case *ssa.Call:
+		if b, isB := x.Call.Value.(*ssa.Builtin); isB && b.Name() == "len" && len(x.Call.Args) == 1 {
+			if n, ok := cx.atom(x.Call.Args[0]); ok {
+				return c12Lin{coef: map[string]int64{n: 1}}, true
+			}
+			return c12Lin{}, false
+		}
+		if cx.exact && x.Call.StaticCallee() == cx.pl && len(x.Call.Args) == 4 {
+			s, okS := cx.of(x.Call.Args[0], depth+1)
+			n, okN := cx.atom(x.Call.Args[1])
+			if okS && okN {
+				return s.plus(c12Lin{coef: map[string]int64{n: 1}}), true
+			}
+		}
+		return c12Lin{}, false
+	case *ssa.Phi:
+		// a counter advanced exactly where one of the lists grows by one element
+		for _, l := range cx.lists {
+			if c12CountsLen(x, l, map[[2]ssa.Value]bool{}) {
+				if n, ok := cx.atom(l); ok {
+					return c12Lin{coef: map[string]int64{n: 1}}, true
+				}
+			}
+		}
+	}
+	return c12Lin{}, false
+}
+
+// c12EmptyList: v is a list of length 0 (nil, make(T, 0[, cap]), T{}).
+func c12EmptyList(v ssa.Value) bool {
+	switch x := v.(type) {
+	case *ssa.Const:
+		return x.Value == nil
+	case *ssa.MakeSlice:
+		return IsConstIntValue(x.Len, 0)
+	case *ssa.Slice:
+		// make with constant sizes and composite literals: new [cap]T sliced [:len]
+		if _, isAlloc := x.X.(*ssa.Alloc); !isAlloc {
+			return false
+		}
+		if x.High != nil {
+			return IsConstIntValue(x.High, 0) && (x.Low == nil || IsConstIntValue(x.Low, 0))
+		}
+		if pt, ok := x.X.Type().Underlying().(*types.Pointer); ok {
+			if at, ok := pt.Elem().Underlying().(*types.Array); ok {
+				return at.Len() == 0 && x.Low == nil
+			}
+		}
+	}
+	return false
+}
+
+// c12CountsLen proves c == len(l) wherever both values are live, by simulation: both are the constant start (0 and
+// an empty list), or phis of the same block whose edges correspond pairwise, or c'+1 and append(l', one element) with
+// c' == len(l').  Phi pairs under examination are assumed (the usual coinductive argument: the relation holds on
+// entry and is preserved by every edge).
+func c12CountsLen(c, l ssa.Value, assumed map[[2]ssa.Value]bool) bool {
+	if ct, ok := l.(*ssa.ChangeType); ok {
+		l = ct.X
+	}
+	key := [2]ssa.Value{c, l}
+	if assumed[key] {
+		return true
+	}
+	if IsConstIntValue(c, 0) {
+		_, isC := c.(*ssa.Const)
+		return isC && c12EmptyList(l)
+	}
+	switch x := c.(type) {
+	case *ssa.Phi:
+		y, ok := l.(*ssa.Phi)
+		if !ok || y.Block() != x.Block() || len(x.Edges) != len(y.Edges) {
+			return false
+		}
+		assumed[key] = true
+		for i := range x.Edges {
+			if !c12CountsLen(x.Edges[i], y.Edges[i], assumed) {
+				delete(assumed, key)
+				return false
+			}
+		}
+		return true
+	case *ssa.BinOp:
+		if x.Op != token.ADD {
+			return false
+		}
+		prev := x.X
+		if !IsConstIntValue(x.Y, 1) {
+			if !IsConstIntValue(x.X, 1) {
+				return false
+			}
+			prev = x.Y
+		}
+		base, elems, ok := appendCall(l)
+		if !ok || len(elems) != 1 {
+			return false
+		}
+		return c12CountsLen(prev, base, assumed)
+	}
+	return false
+}
+
+// c12ProcessListExact: processList(start, list, ..) runs its body once per element of list (no other way out of
+// the loop than the exhausted range), the index phi idx enters with start and advances by one on every back edge,
+// and the value returned is idx at loop exit.  Hence the indices start .. start+len(list)-1 are handed out and
+// start+len(list) is returned.
+func c12ProcessListExact(tm *Termer, pl *ssa.Function, idx ssa.Value, body *ssa.BasicBlock) bool {
+	ph, ok := idx.(*ssa.Phi)
+	if !ok || body == nil {
+		return false
+	}
+	loops := Loops(pl)
+	l := InnermostLoop(loops, body)
+	if l == nil || ph.Block() != l.Header {
+		return false
+	}
+	// the header is the only block with an edge out of the loop
+	for b := range l.Blocks {
+		for _, s := range b.Succs {
+			if !l.Blocks[s] && b != l.Header {
+				return false
+			}
+		}
+	}
+	iff, isIf := l.Header.Instrs[len(l.Header.Instrs)-1].(*ssa.If)
+	if !isIf {
+		return false
+	}
+	cmp, isCmp := iff.Cond.(*ssa.BinOp)
+	if !isCmp || !c12CountsInputs(tm, pl, body, cmp.X) || tm.Of(cmp.Y).String() != "len(p1)" {
+		return false
+	}
+	nIn, nBack := 0, 0
+	for i, e := range ph.Edges {
+		if l.Blocks[l.Header.Preds[i]] {
+			if !c13IsPlusOne(e, ph) {
+				return false
+			}
+			nBack++
+		} else {
+			if !isParamIdx(tm.Of(e), 0) {
+				return false
+			}
+			nIn++
+		}
+	}
+	if nIn == 0 || nBack == 0 {
+		return false
+	}
+	// every return yields the index phi, and lies outside the loop
+	nRet := 0
+	for _, b := range pl.Blocks {
+		if ret, isRet := b.Instrs[len(b.Instrs)-1].(*ssa.Return); isRet {
+			if l.Blocks[b] || len(ret.Results) != 1 || ret.Results[0] != ssa.Value(ph) {
+				return false
+			}
+			nRet++
+		}
+	}
+	return nRet > 0
+}
+
+// c12ChainedStarts: the start index of every processList call (in program order) is the end of the previous group,
+// the first is 0.
+func c12ChainedStarts(cx *c12LinCtx, calls []ssa.CallInstruction) bool {
+	for i, c := range calls {
+		a := c.Common().Args
+		if i == 0 {
+			s, ok := cx.of(a[0], 0)
+			if !ok || !s.equal(c12Lin{}) {
+				return false
+			}
+			continue
+		}
+		if a[0] == calls[i-1].Value() && calls[i-1].Value() != nil {
+			continue // the pinned form: the index returned by the previous call
+		}
+		if !cx.exact {
+			return false
+		}
+		prev := calls[i-1].Common().Args
+		ps, okP := cx.of(prev[0], 0)
+		pn, okN := cx.atom(prev[1])
+		s, okS := cx.of(a[0], 0)
+		if !okP || !okN || !okS || !s.equal(ps.plus(c12Lin{coef: map[string]int64{pn: 1}})) {
+			return false
+		}
+	}
+	return true
+}
+
+// c12NewLinCtx prepares the evaluation of start indices in fn (Network.FastNetworkSolver).
+func c12NewLinCtx(p *Prog, fn, pl *ssa.Function) *c12LinCtx {
+	cx := &c12LinCtx{tm: NewTermer(fn), fn: fn, pl: pl}
+	// the functions that run between two loads of a receiver field in fn: fn itself and what it calls directly
+	scope := []*ssa.Function{fn}
+	Instrs(fn, func(_ *ssa.BasicBlock, _ int, in ssa.Instruction) {
+		if c, ok := in.(ssa.CallInstruction); ok {
+			if callee := c.Common().StaticCallee(); callee != nil && len(callee.Blocks) > 0 && callee.Pkg == fn.Pkg {
+				scope = append(scope, callee)
+			}
+		}
+	})
+	cx.stableField = func(t *Term) bool {
+		if t.Op != "field" || len(t.Args) != 1 || t.Args[0].Op != "recv" {
+			return false
+		}
+		fld, ok := t.Obj.(*types.Var)
+		if !ok {
+			return false
+		}
+		for _, f := range scope {
+			if len(FieldStores(f, fld)) > 0 {
+				return false
+			}
+		}
+		return true
+	}
+	// processList hands out start .. start+len(list)-1 and returns start+len(list)
+	ptm := NewTermer(pl)
+	nStores, nExact := 0, 0
+	Instrs(pl, func(b *ssa.BasicBlock, _ int, in ssa.Instruction) {
+		if st, ok := in.(*ssa.Store); ok {
+			if ia, ok := st.Addr.(*ssa.IndexAddr); ok && isParamIdx(ptm.Of(ia.X), 2) {
+				nStores++
+				if c12ProcessListExact(ptm, pl, ia.Index, b) {
+					nExact++
+				}
+			}
+		}
+	})
+	cx.exact = nStores > 0 && nStores == nExact
+	return cx
 }
